@@ -1,12 +1,79 @@
-(* C07/Properties.v — property C07 (work in progress: statements are added as they are proved) *)
-From Common Require Import Bytes Outcome.
-From C07 Require Import Model.
+(* C07/Properties.v — property C07: trie node encoding round-trips and decoding is robust.
+   Only statements, each closed by `exact <lemma>`, with Print Assumptions beneath.
+   Model: coq/TrieCodec/Codec.v (node.Decode / node.Encode / header / key of pkg/trie/node and
+   Decode of pkg/trie/triedb/codec), tied to the Go code by props/C07. *)
+From Common Require Import Bytes Outcome Blake2b.
+From TrieCodec Require Import Codec View ProofsBasic ProofsHeader ProofsDecode ProofsTotal.
+From C07 Require Import Model Proofs.
 Local Open Scope N_scope.
 
-(* the pinned tree: node.Decode panics on the compact-encoding header byte and on a branch whose
-   inlined child is the empty node *)
+(* Every well-formed in-memory node — leaf or branch, with or without a value, inline value or a
+   value that must be hashed, partial key of any length up to 65535 nibbles, children inlined
+   (encoding < 32 bytes, decoded in place, recursively) or referenced by hash — encodes to bytes
+   that node.Decode maps back to its decoded view [view H n], and that triedb/codec.Decode maps to
+   [cview H n].  H is the hash (only its 32-byte output length is used); the statement holds for
+   both settings of the scale reader [st] and for the pinned and the repaired decoder [fixed]. *)
+Theorem C07_roundtrip :
+  forall (H : list byte -> list byte), (forall x, length (H x) = 32%nat) ->
+  forall st fixed n, wf_node n = true ->
+       decode st fixed (encode H n) = Ok (Some (view H n))
+    /\ cdecode st fixed (encode H n) = Ok (cview H n).
+Proof.
+  intros H Hlen st fixed n W. split.
+  - exact (decode_encode H Hlen st fixed n W).
+  - rewrite <- (app_nil_r (encode H n)). exact (cdecode_encode H Hlen st fixed n [] W).
+Qed.
+Print Assumptions C07_roundtrip.
+
+(* ... in particular with the hash the code uses *)
+Theorem C07_roundtrip_blake2b :
+  forall st n, wf_node n = true ->
+  node_decode st (encode blake2b_256 n) = Ok (Some (view blake2b_256 n)).
+Proof. intros st n W. exact (decode_encode blake2b_256 blake2b_256_length st true n W). Qed.
+Print Assumptions C07_roundtrip_blake2b.
+
+(* the header: every node variant and every partial-key length 0..65535 (the in-byte limit
+   63/31/15, runs of 255, the final byte) survives encodeHeader ; decodeHeader, whatever follows *)
+Theorem C07_header_roundtrip :
+  forall v l rest, node_variant v = true -> l <= 65535 ->
+  decode_header (encode_header v l ++ rest) = Ok (v, l, rest).
+Proof. exact decode_header_encode. Qed.
+Print Assumptions C07_header_roundtrip.
+
+(* the partial key: nibbles -> packed bytes -> nibbles, odd and even lengths *)
+Theorem C07_key_roundtrip :
+  forall pk rest, nibbles_ok pk = true ->
+  decode_key (nibbles_to_key_le pk ++ rest) (lenN pk) = Ok (pk, rest).
+Proof. intros pk rest Hp. apply decode_key_encode. now apply nibbles_ok_P. Qed.
+Print Assumptions C07_key_roundtrip.
+
+(* robustness: on every byte string both (repaired) decoders return a node or an error; they
+   never panic, and the recursion into inlined children never exhausts the fuel
+   S (length bs) that [decode] provides — no hang *)
+Theorem C07_total :
+  forall st bs,
+     ((exists r, node_decode st bs = Ok r) \/ (exists c, node_decode st bs = Err c))
+  /\ ((exists r, codec_decode st bs = Ok r) \/ (exists c, codec_decode st bs = Err c)).
+Proof. intros st bs. split; [exact (total_node st bs)|exact (total_codec st bs)]. Qed.
+Print Assumptions C07_total.
+
+(* non-vacuity: a branch with a 70-nibble partial key, a value that must be hashed, an inlined
+   leaf child and a child referenced by hash is well-formed, and its encoding is 109 bytes *)
+Example C07_nonvacuous :
+  let leaf_small := TN [n2b 1] (Some [n2b 7]) false [] in
+  let leaf_big := TN [n2b 2; n2b 3] (Some (repeat (n2b 9) 40)) false [] in
+  let n := TN (repeat (n2b 5) 70) (Some (repeat (n2b 8) 33)) true
+              (Some leaf_small :: None :: Some leaf_big :: repeat None 13) in
+  wf_node n = true /\ length (encode blake2b_256 n) = 109%nat
+  /\ (length (encode blake2b_256 leaf_small) < 32)%nat /\ (32 <= length (encode blake2b_256 leaf_big))%nat.
+Proof. vm_compute. repeat split; lia. Qed.
+
+(* the pinned tree violated the robustness half: node.Decode and codec.Decode panic on the
+   compact-encoding header byte 0x01, node.Decode panics on a branch whose inlined child is the
+   empty node (80 01 00 04 00) *)
 Theorem C07_total_pinned_refuted :
   (forall st, node_decode_pinned st [n2b 1] = Panic)
+  /\ (forall st, codec_decode_pinned st [n2b 1] = Panic)
   /\ (forall st, node_decode_pinned st (map n2b [128; 1; 0; 4; 0]) = Panic).
-Proof. split; intros [[|] [|]]; vm_compute; reflexivity. Qed.
+Proof. repeat split; intros [[|] [|]]; vm_compute; reflexivity. Qed.
 Print Assumptions C07_total_pinned_refuted.
